@@ -3,6 +3,9 @@
 package websocket
 
 import (
+	"github.com/aukilabs/hagall-common/messages/hagallpb"
+	"github.com/aukilabs/hagall-common/messages/odalpb"
+	"github.com/aukilabs/hagall-common/messages/vikjapb"
 	hwebsocket "github.com/aukilabs/hagall-common/websocket"
 	"github.com/aukilabs/hagall/internal/verifnd"
 )
@@ -75,7 +78,7 @@ func c01Step(sh stepShape) {
 		kind = kDisconnect
 	}
 	kn := stepKindName(kind)
-	_, _ = s.actOn(s.a0, kind, kind == kAction)
+	req, out := s.actOn(s.a0, kind, kind == kAction)
 
 	for _, m := range p1.drain() {
 		ok := view.apply(m, syncT)
@@ -99,6 +102,14 @@ func c01Step(sh stepShape) {
 	}
 	if sh.mods&vModOdal != 0 {
 		verifnd.Assert(view.sameAssets(handed), "C01.view.assets", kn)
+	}
+	// the requester's own view: a request answered with success took effect as it was sent
+	if kind == kAction && req.hasSub && countType(out.own, hagallpb.MsgType(vikjapb.MsgType_MSG_TYPE_VIKJA_ENTITY_ACTION_RESPONSE)) == 1 {
+		verifnd.Assert(handed.actIdx(req.eid, req.name) >= 0, "C01.accepted_request_reflected_as_sent", kn)
+	}
+	if kind == kAssetAdd && countType(out.own, hagallpb.MsgType(odalpb.MsgType_MSG_TYPE_ODAL_ASSET_INSTANCE_ADD_RESPONSE)) == 1 {
+		j := handed.assetIdx(req.eid)
+		verifnd.Assert(j >= 0 && handed.assets[j].assetID == req.name, "C01.accepted_request_reflected_as_sent", kn)
 	}
 	verifnd.Observe("c01", uint64(kind), uint64(len(handed.parts)), uint64(len(handed.ents)), uint64(len(handed.comps)), uint64(len(handed.acts)), uint64(len(handed.assets)))
 	verifnd.Reach("C01.step.done")
